@@ -34,6 +34,8 @@ TEXT = {
          "singleflight is a leader/follower model with one earlier flight; more than one follower generation is outside."),
  "C17": ("periodicBackup/doBackup executed symbolically over a ghost clock, a generation counter with writes at any point (also racing an upload), failing reads/uploads and cancellation at any wait: whole-file uploads, change-driven, at most one per minute, blocking wait between generation reads, retry after failure, termination on cancellation.",
          "S3, the file read and timers are stubs; 2/4 loop rounds with an unwinding assertion; that an uploaded file is a complete database file follows from C04."),
+ "C18": ("byteString's text marshalers executed through the real encoding/base64 SSA on symbolic byte vectors (round trip for every vector up to the bound); copy-in/copy-out at the DB boundary as heap facts; the CLI's checkPutText and runPut (file and pipe) against the statement's policy table with the real utf8.Valid/bytes.TrimSpace/unicode.IsSpace interpreted on symbolic bytes.",
+         "Vectors of 0..9/16 bytes (base64), 0..3/4 (CLI text policy); every other hop (JSON/base64 inside api.SecretValue, cache, file client) is the JSON contract; megabyte values, flag parsing and the terminal prompt are outside."),
  "C19": ("hasExpired against the statement over all stamps/ages (ghost clock in mathematical integers), expiry only at a poll and only for stale, unreferenced, undeclared names, handle reads stamp last access, stamps persisted with the cache document.",
          "time.Time arithmetic is a contract stub."),
  "C20": ("Fields.Apply/Secrets and fieldInfo.apply on a hand-built field list ([]byte, string, Secret, custom unmarshaler): naming, per-type assignment, private copy for []byte, error isolation, untagged field untouched.",
